@@ -299,6 +299,9 @@ func FieldMenu() []FieldVariant {
 	add("F19-multiline-anonymous-struct", "Nested§ struct {\n\tA int `json:\"a\"`\n\tB string `json:\"b\" valid:\"inner\"` // inner @tag valid:\"never\"\n} `json:\"nested\"` // @tag valid:\"required\"", true)
 	add("F19-multiline-func-type", "Fn§ func(\n\ta int, // first\n\tb string,\n) error `json:\"-\"` // @tag valid:\"exist\"", true)
 	add("F19-oneline-anonymous-struct", "Page§ struct{ No int `json:\"no\"` } `json:\"page\"` // @tag valid:\"required\"", true)
+	// an inner field whose tag literal is byte-identical to the annotated outer one: the outer literal is the one merged
+	add("F21-oneline-inner-tag-identical", "Twin§ struct{ No int `json:\"twin\"` } `json:\"twin\"` // @tag valid:\"required\"", true)
+	add("F21-multiline-inner-tag-identical", "TwinM§ struct {\n\tA int `json:\"tm\"`\n\tB int `json:\"tm\"`\n} `json:\"tm\"` // @tag valid:\"required\" json:\"t2\"", true)
 	// values with backslashes / non-printable-looking runes on keys the annotation does not mention: kept byte for byte
 	add("F20-backslash-in-untouched-value", "Bind string `binding:\"regexp=^\\\\d{6}$\" json:\"bind\"` // @tag valid:\"required\"", true)
 	add("F20-wide-space-in-untouched-value", "Wide string `comment:\"全角　空格\ttab\" json:\"wide\"` // @tag valid:\"required\" json:\"w\"", true)
@@ -322,6 +325,12 @@ func DupKeyMenu() []FieldVariant {
 		{"D5-no-tag-literal-inner-tags", "PageNT struct{ No int `json:\"no\"` } // @tag valid:\"required\"", true},
 		{"D6-no-tag-literal-malformed-annotation", "BadNT string // @tag valid:required", true},
 		{"D7-malformed-annotation", "BadT string `json:\"b\"` // @tag valid:required json:", true},
+		// existing literals holding text that is not a key:"non-empty value" pair (what becomes of that text is not
+		// specified; that the second run changes nothing is)
+		{"D8-empty-value-first", "EmptyA string `bson:\"\" json:\"ea\"` // @tag valid:\"required\"", true},
+		{"D9-empty-value-last", "EmptyB string `json:\"eb\" bson:\"\"` // @tag valid:\"required\" json:\"e\"", true},
+		{"D10-bare-word-in-literal", "Bare string `json:\"bw\" omitempty  xml:\"x\"` // @tag valid:\"required\"", true},
+		{"D11-only-unrecognised-text", "OnlyU string `bson:\"\"` // @tag valid:\"required\"", true},
 	}
 }
 
